@@ -34,6 +34,7 @@ PROPS["C07"] = {
         T("SV.campaign_leader_needs_quorum", "a candidate becomes leader only with a quorum of the voters of its latest configuration; its own vote counts only if it is a voter of it"),
         T("SV.campAsked_voters", "a candidate asks only voters of its latest configuration for pre-votes and votes"),
         T("SV.appendConfig_adopts_what_it_stored", "and when the store succeeds, the configuration the leader adopts is carried by the configuration entry its own log then holds at the index it names (with appendConfig_store_failure_adopts_nothing: a leader never acts on a configuration its log does not hold)"),
+        T("SV.dispatch_keeps_latest_config", "dispatchLogs for any group of calls, store failing or not, leaves every index up to the old last index as it was, so the configuration entry the latest configuration names stays in the log (with the two appendConfig theorems: the step-level invariant behind the clause latest-configuration-is-not-in-the-log)"),
         T("SV.appendConfig_store_failure_adopts_nothing", "the stepped leader loop: when the StoreLogs call of appendConfigurationEntry fails, the latest configuration, its index and the log are what they were - a configuration no log holds is never the one a server acts on (the behaviour restored by the fix recorded as F22; the leader engine's clause latest-configuration-is-not-in-the-log checks it on the implementation)"),
         T("SV.lead_one_uncommitted_config", "the stepped leader loop: as long as it runs, every configuration entry in its log above the committed configuration's index is the latest configuration's entry - the log never holds two uncommitted configurations - for every step of API calls (membership calls served at once or after waiting for the gate), acknowledgements, heartbeat answers, a newer term reported, and every store fault"),
         T("SV.appendConfig_inv", "appendConfigurationEntry keeps that invariant exactly because it runs only when the latest configuration is the committed one (the gate)"),
